@@ -16,3 +16,13 @@ C['C10'] = dict(
  text="Closed generated programs are paired with their images under the four implementation-choice transformations; TLC checks Obs(T(p)) = Obs(p) on the two recorded runs of the real interpreter, with no reference interpreter involved in that verdict. The fused variable-op-constant instructions are selected or avoided by literal->variable and mirror; wrap moves globals to locals; prepend shifts and merges constant-pool entries.",
  ref="DESIGN.md 5 C10",
  note="Trusted: TLC, the recorder, xform.rs. Side conditions: wrapped programs define no functions; mirrored operands are one literal and one name. Programs are sampled (seeded).")
+C['C11'] = dict(
+ tech="TLA+ reference semantics (NlSem) for values/output of a completely enumerated control-flow template set and random nests; TLA+ trace specification NlFrames (LoopResidue, frame discipline) over dispatch events recorded from the real VM, including loops of 70 000+ iterations; NlBcSafe one-height-per-instruction on all paths",
+ text="Every instance of the template set (nest shapes x slot fillers incl. stop/volgende/antwoord at every depth x iteration counts x statement/value use x top level/function) is run by the real interpreter and validated by TLC against NlSem; the recorded dispatch events are validated against NlFrames (every backward jump finds the stack height of its first visit; frame count/base pointer/ip evolve as specified), the compiled code is model-checked on all paths for height conflicts, and four loops far past 65 536 iterations are validated on their back edges.",
+ ref="DESIGN.md 5 C11",
+ note="Trusted: TLC, the recorder, the exported opcode table. The template set is enumerated completely; random nests are sampled (seeded).")
+C['C12'] = dict(
+ tech="TLA+ reference semantics (NlSem) for values/output of call templates and random call-heavy programs; TLA+ trace specification NlFrames checking every recorded Call/Return of the real VM (base pointer, locals padding, return address, restored base, stack cut to one result)",
+ text="Call templates (0-4 parameters x 0-4 locals x 8 expression contexts; direct, mutual and double recursion to depth 200; empty bodies; functions stored, passed, returned) and random call-heavy programs are run by the real interpreter; results are validated against NlSem and the recorded dispatch events against the frame discipline of NlFrames, step by step with the specification's own frame stack.",
+ ref="DESIGN.md 5 C12",
+ note="Trusted: TLC, the recorder. Depth beyond the specification's MaxDepth/step budget is skipped (counted). The 16-bit stack-index limit is not driven to its end (would need 65 535 live slots; recorded in DESIGN.md 6).")
